@@ -63,6 +63,7 @@ func nilConst(v ssa.Value) bool {
 }
 
 func runC04(r *engine.Run) {
+	r.Rule("DOM-takeover", "in MergeDB the iteration over the donor store (through which the donor's nodes enter this trie's pending changes) dominates every return: no shortcut - being at the donor's root already, say - skips the take-over, after which a save would write nothing and report success")
 	r.Rule("WHO-collect", "the trie's own store is written only by insertNode (PutNode, DeleteNode) and deleteNode (DeleteNode), and the change collector is fed only there; in insertNode the new node is put under GetHashBytes() of that node, every success return either passes AddChange(old, new) or is reached only when old and new hash are equal, and the replaced node is deleted under its own hash; deleteNode records the change before deleting")
 	r.Rule("ORDER-KEY-save", "UpdateChanges writes all new nodes with exactly one MultiPutNode call outside any loop and before any delete; keys[i] is GetHashBytes() of the very node stored in nodes[i], which is a copy of the change's New node; every DeleteNode is reached only with includeDeletes true; SaveChanges hands its own store and includeDeletes arguments through unchanged; the save calls no node mutator (SetOrigin, SetVersion, SetValue, PutChild ...) on the copies it writes")
 	r.Rule("WHO-batch", "(*PNodeDB).MultiPutNode reaches RocksDB only through WriteBatch.Put inside the loop over keys (key i with the encoding of node i) and exactly one DB.Write of that batch after the loop; no direct DB.Put/PutCF/Delete")
@@ -109,6 +110,7 @@ func runC04(r *engine.Run) {
 	errSelect(r, "ERR-select", funcsOfPkg(r, pkgUtil), 1)
 	domAdopt(r, "DOM-adopt")
 	freshPathBuf(r, "FRESH-pathbuf")
+	domTakeover(r, "DOM-takeover")
 }
 
 func whoCollect(r *engine.Run) {
@@ -367,6 +369,46 @@ func orderKeySave(r *engine.Run) {
 	})
 	good := keyStore != nil && nodeStore != nil
 	detail := "stores into the key/node slices not found"
+	recordBlocks := map[*ssa.BasicBlock]bool{}
+	if nodeStore != nil {
+		recordBlocks[nodeStore.Block()] = true
+	}
+	if !good {
+		// the append form: keys = append(keys, nd.GetHashBytes()); nodes = append(nodes, nd)
+		ke, ne := appendedElems(keys), appendedElems(nodes)
+		if len(ke) > 0 && len(ne) > 0 {
+			okAll := true
+			for _, k := range ke {
+				okK := false
+				if c, ok := stripCT(k.val).(*ssa.Call); ok {
+					if recv, ok := engine.IsMethodCall(c, "GetHashBytes"); ok {
+						for _, nd := range ne {
+							if nd.val == recv && nd.at.Block() == k.at.Block() {
+								okK = true
+							}
+						}
+					}
+				}
+				okAll = okAll && okK
+			}
+			for _, nd := range ne {
+				okN := false
+				if c, ok := nd.val.(*ssa.Call); ok {
+					if recv, ok := engine.IsMethodCall(c, "CloneNode"); ok {
+						if fld := fieldLoadOf(recv); fld != nil && fld.Name() == "New" {
+							okN = true
+						}
+					}
+				}
+				okAll = okAll && okN
+				recordBlocks[nd.at.Block()] = true
+			}
+			detail = fmt.Sprintf("appended keys are the hashes of the nodes appended beside them, which are copies of change.New: %v", okAll)
+			r.Check(okAll, rule, fn(f)+"|keys[i]=hash(nodes[i])", r.P.Pos(mp.Pos()), "every appended key is GetHashBytes() of the node appended with it, a copy of the change's New node", "a saved node is not addressed by its own hash (or the wrong node of the change is saved): "+detail)
+			saveEvery(r, rule, f, recordBlocks)
+			goto deletes
+		}
+	}
 	if good {
 		kidx := engine.ValKey(keyStore.Addr.(*ssa.IndexAddr).Index)
 		nidx := engine.ValKey(nodeStore.Addr.(*ssa.IndexAddr).Index)
@@ -395,6 +437,8 @@ func orderKeySave(r *engine.Run) {
 		detail = fmt.Sprintf("key is hash of the stored node=%v, stored node is a copy of change.New=%v, same index=%v", okHash, okNode, kidx == nidx)
 	}
 	r.Check(good, rule, fn(f)+"|keys[i]=hash(nodes[i])", r.P.Pos(mp.Pos()), "keys[i] is GetHashBytes() of nodes[i], a copy of the change's New node", "a saved node is not addressed by its own hash (or the wrong node of the change is saved): "+detail)
+	saveEvery(r, rule, f, recordBlocks)
+deletes:
 	for i, d := range dels {
 		construct := fmt.Sprintf("%s|delete#%d", fn(f), i+1)
 		atoms, ok := engine.AtomsOn(f, d.Block())
@@ -639,4 +683,101 @@ func domRecorded(r *engine.Run, rule string) {
 	if n < 5 {
 		r.Anchor(rule, fmt.Errorf("unresolved anchor: %d record/return sites in AddChange", n))
 	}
+}
+
+type appended struct {
+	val ssa.Value
+	at  ssa.Instruction
+}
+
+// appendedElems: the values appended, one at a time, to the slice v reaches
+// through phis and append calls (the variadic argument's backing array stores).
+func appendedElems(v ssa.Value) []appended {
+	var out []appended
+	seen := map[ssa.Value]bool{}
+	var walk func(x ssa.Value)
+	walk = func(x ssa.Value) {
+		if x == nil || seen[x] {
+			return
+		}
+		seen[x] = true
+		switch y := x.(type) {
+		case *ssa.Phi:
+			for _, e := range y.Edges {
+				walk(e)
+			}
+		case *ssa.Call:
+			b, ok := y.Call.Value.(*ssa.Builtin)
+			if !ok || b.Name() != "append" || len(y.Call.Args) != 2 {
+				return
+			}
+			walk(y.Call.Args[0])
+			if sl, ok := y.Call.Args[1].(*ssa.Slice); ok {
+				if al, ok := sl.X.(*ssa.Alloc); ok {
+					for _, ref := range engine.Referrers(al) {
+						if ia, ok := ref.(*ssa.IndexAddr); ok {
+							for _, r2 := range engine.Referrers(ia) {
+								if st, ok := r2.(*ssa.Store); ok && st.Addr == ssa.Value(ia) {
+									out = append(out, appended{st.Val, y})
+								}
+							}
+						}
+					}
+				}
+			}
+		}
+	}
+	walk(v)
+	return out
+}
+
+// saveEvery: every pending change is written: in the loop of UpdateChanges over
+// the pending changes, no iteration gets back to the loop head without having
+// recorded its node for the batch (no filter, no continue). A change left out
+// is a node the new root (or another saved node) refers to by hash and the
+// store does not have.
+func saveEvery(r *engine.Run, rule string, f *ssa.Function, record map[*ssa.BasicBlock]bool) {
+	var head *ssa.BasicBlock
+	engine.Instrs(f, func(in ssa.Instruction) {
+		nx, ok := in.(*ssa.Next)
+		if !ok {
+			return
+		}
+		if rg, ok := nx.Iter.(*ssa.Range); ok {
+			if fld := fieldLoadOf(rg.X); fld != nil && fld.Name() == "Changes" {
+				head = nx.Block()
+			}
+		}
+	})
+	if head == nil || len(record) == 0 {
+		r.Anchor(rule, fmt.Errorf("unresolved anchor: loop over the pending changes in %s", fn(f)))
+		return
+	}
+	// body entry: the successor of the head that stays in the loop
+	skipped := false
+	seen := map[*ssa.BasicBlock]bool{}
+	var work []*ssa.BasicBlock
+	for _, s := range head.Succs {
+		if inCycle(s) && !record[s] {
+			work = append(work, s)
+			seen[s] = true
+		}
+	}
+	for len(work) > 0 {
+		b := work[0]
+		work = work[1:]
+		for _, s := range b.Succs {
+			if s == head {
+				skipped = true
+				continue
+			}
+			if seen[s] || record[s] {
+				continue
+			}
+			seen[s] = true
+			work = append(work, s)
+		}
+	}
+	r.Check(!skipped, rule, fn(f)+"|every change saved", r.P.Pos(head.Instrs[0].Pos()), "every iteration over the pending changes records its node for the batch",
+		"an iteration over the pending changes can return to the loop head without recording its node (a filter / continue): the change is left out of the save, so a node that the saved root or another saved node refers to by hash is missing from the store while the save reports success")
 }
